@@ -72,15 +72,18 @@ CFG = {'module': 'Dnp3.Props.C01',
                'transport read / drain loops never depend on their fuel (progress per iteration: no spin) '
                'and keep their buffer invariants (the slice indexing and expects of link/reader.rs and '
                'transport/real/assembler.rs cannot fail); every accepted object header consumes >= 3 octets; '
-               'the lazy iterators cannot overflow (D2 repaired: fix 320622f); on every trace from '
-               'construction the outstation session model panics ONLY through D1 (OPERATE echo larger than '
-               'the solicited buffer): the event-counter subtraction of unwritten_classes cannot underflow '
-               'on a database reachable from a fresh one (D3 repaired: counters_exact / no_counter_underflow), '
-               'and its idle loop never needs a 4th consecutive pass; plus the complete, regenerated '
-               'panic-site inventory of the anchor files with every site classified (decide). Search: the '
-               'rawbytes engine against the real task',
- 'level_note': 'proof (partial): D1 is a genuine defect of the unchanged tree (known finding with replayed '
-               'witnesses), D2 and D3 are repaired (regression corpus); trusted: Lean kernel, translate.py '
+               'the lazy iterators cannot overflow (D2 repaired: fix 320622f); outstation_step_no_panic, '
+               'unconditional over reachable states: for every configuration, every state of every trace '
+               'from construction and every input the outstation session model neither panics nor leaves '
+               'the task dead (D1 repaired: an OPERATE whose echo does not fit the solicited buffer is '
+               'answered with the truncated echo like SELECT / DIRECT_OPERATE, no request handler returns a '
+               'panic; D3 repaired: the event-counter subtraction of unwritten_classes cannot underflow on '
+               'a database reachable from a fresh one, counters_exact / no_counter_underflow), and its idle '
+               'loop never needs a 4th consecutive pass; plus the complete, regenerated panic-site '
+               'inventory of the anchor files with every site classified and no known-finding site left '
+               '(decide). Search: the rawbytes engine against the real task',
+ 'level_note': 'proof: the outstation no-panic theorem is unconditional over reachable states; D1, D2 and D3 '
+               'are repaired (regression corpus, the cause= tags stay in the monitors); trusted: Lean kernel, translate.py '
                '+ gen_panic_sites.py, the hand classification, the correspondence harness; the Rust is '
                'modelled, not verified; master role covered by search only (engine master: no_panic / '
                'no_spin), no master no-panic theorem',
